@@ -1,4 +1,5 @@
 import JunoModel.C11.Proofs
+import JunoModel.C11.ProofsPretty
 /-!
 C11 — property theorems (statements only; the proofs are in `Proofs.lean`, the vocabulary in
 `ModelSpec.lean`, the model of `jsonrpc/server.go` in `Model.lean`).
@@ -10,37 +11,16 @@ The real server answers a batch in the order its worker pool finishes; the model
 request order, and the theorems that pair requests with responses are stated for every
 permutation of the response list.
 
-Three behaviours of the unchanged server contradict the property; each is a `Config` switch whose
-`false`/`some 128` value is the code as it is (`junoCfg`) and whose other value is the proposed
-repair. For each there is the full-strength theorem under the repaired value, a `_partial` theorem
-for the unchanged server, and a proved counterexample on `junoCfg`.
+`junoCfg` is the server in the current tree. Two defects found at the pinned commit (`pinnedCfg`) have
+been repaired in /repo (6b06fc7 nil results, 16a67e4 notifications answered with errors): the
+full-strength theorems now hold for `junoCfg`, and the proved counterexamples are kept on
+`pinnedCfg` as regression witnesses. One defect remains (a batch after 128 or more blanks): it has the
+full theorem for the repaired switch, a `_partial` theorem for `junoCfg` and a proved counterexample.
 -/
 namespace Juno.C11.Props
 open Juno.C11
 
 /-! ## 1. Well-formed output -/
-
-/-- FULL (repaired `nullForNilResult`): for every input the output is nothing, or one JSON-RPC 2.0
-response object (`jsonrpc:"2.0"`, exactly one of result / error, an id) for a single request or a
-refused input, or a non-empty array of such objects for a batch. -/
-theorem wellformed_response (cfg : Config) (env : Env) (tbl : Table) (inp : Input)
-    (hfix : cfg.nullForNilResult = true) :
-    WellFormedBody (inp.batch? cfg).isSome (handleInput cfg env tbl inp).body :=
-  wellformed cfg env tbl inp (Or.inl hfix)
-
-/-- PARTIAL (any configuration, in particular the unchanged server): the same, provided no handler
-returns an untyped nil result together with a nil error. What is missing: handlers returning
-`(nil, nil)` — see `wellformed_response_fails_for_nil_result`. -/
-theorem wellformed_response_partial (cfg : Config) (env : Env) (tbl : Table) (inp : Input)
-    (hno : NoNilResult env) :
-    WellFormedBody (inp.batch? cfg).isSome (handleInput cfg env tbl inp).body :=
-  wellformed cfg env tbl inp (Or.inr hno)
-
-/- Full-strength statement for the unchanged server, FALSE (refuted just below), kept for the record:
-     theorem wellformed_response_juno (env : Env) (tbl : Table) (inp : Input) :
-       WellFormedBody (inp.batch? junoCfg).isSome (handleInput junoCfg env tbl inp).body
-   It becomes `wellformed_response` once jsonrpc/server.go writes "result":null for a nil result
-   (proposed-fixes/C11-nil-result.diff). -/
 
 /-- every handler returns `(nil, nil)`; one method `m` without parameters -/
 def nilEnv : Env := { decode := fun _ v => some v, zero := fun _ => .null, call := fun _ _ => {} }
@@ -48,17 +28,38 @@ def oneMethod : Table := [{ name := "m", params := [] }]
 def request (method : String) (rest : List (String × Json)) : Json :=
   .obj ([("jsonrpc", .str "2.0"), ("method", .str method)] ++ rest)
 def singleInput (j : Json) : Input := { leadWs := 0, firstIsBracket := false, parsed := some j }
+/-- every handler echoes its arguments -/
+def echoEnv : Env :=
+  { decode := fun _ v => some v, zero := fun _ => .null, call := fun _ args => { result := some (.arr args) } }
 
-/-- DEFECT (unchanged server): `{"jsonrpc":"2.0","method":"m","id":1}` with a handler returning
-`(nil, nil)` is answered with `{"jsonrpc":"2.0","id":1}` — neither result nor error. -/
-theorem wellformed_response_fails_for_nil_result :
-    (handleInput junoCfg nilEnv oneMethod (singleInput (request "m" [("id", .num "1")]))).body
+/-- FULL, for the server as it is: for every input, table, parameter typing and handler behaviour the
+output is nothing, or one JSON-RPC 2.0 response object (`jsonrpc:"2.0"`, exactly one of result /
+error, an id) for a single request or a refused input, or a non-empty array of such objects for a
+batch. -/
+theorem wellformed_response (env : Env) (tbl : Table) (inp : Input) :
+    WellFormedBody (inp.batch? junoCfg).isSome (handleInput junoCfg env tbl inp).body :=
+  wellformed junoCfg env tbl inp (Or.inl rfl)
+
+/-- The same for every configuration that writes nil results as null, and for every configuration
+at all when no handler returns an untyped nil result together with a nil error. -/
+theorem wellformed_response_any_config (cfg : Config) (env : Env) (tbl : Table) (inp : Input)
+    (h : cfg.nullForNilResult = true ∨ NoNilResult env) :
+    WellFormedBody (inp.batch? cfg).isSome (handleInput cfg env tbl inp).body :=
+  wellformed cfg env tbl inp h
+
+/-- REGRESSION WITNESS (pinned commit, repaired by 6b06fc7): `{"jsonrpc":"2.0","method":"m","id":1}`
+with a handler returning `(nil, nil)` was answered with `{"jsonrpc":"2.0","id":1}` — neither result
+nor error; the current server answers `"result":null`. -/
+theorem nil_result_defect_before_6b06fc7 :
+    (handleInput pinnedCfg nilEnv oneMethod (singleInput (request "m" [("id", .num "1")]))).body
         = some (.obj [("jsonrpc", .str "2.0"), ("id", .num "1")])
     ∧ ¬ WellFormedBody false
-        (handleInput junoCfg nilEnv oneMethod (singleInput (request "m" [("id", .num "1")]))).body := by
-  have h : (handleInput junoCfg nilEnv oneMethod (singleInput (request "m" [("id", .num "1")]))).body
+        (handleInput pinnedCfg nilEnv oneMethod (singleInput (request "m" [("id", .num "1")]))).body
+    ∧ (handleInput junoCfg nilEnv oneMethod (singleInput (request "m" [("id", .num "1")]))).body
+        = some (.obj [("jsonrpc", .str "2.0"), ("result", .null), ("id", .num "1")]) := by
+  have h : (handleInput pinnedCfg nilEnv oneMethod (singleInput (request "m" [("id", .num "1")]))).body
       = some (.obj [("jsonrpc", .str "2.0"), ("id", .num "1")]) := by rfl
-  refine ⟨h, ?_⟩
+  refine ⟨h, ?_, by rfl⟩
   rw [h]
   rintro ⟨id, hr⟩
   have := isResponse_members hr
@@ -66,49 +67,33 @@ theorem wellformed_response_fails_for_nil_result :
 
 /-! ## 2. No output iff every request is a notification -/
 
-/-- The server is silent iff the input consists of request values it passes over in silence
-(`Stage.noReply`): in particular never for unparsable input, an empty batch or disabled batches. -/
+/-- FULL, for the server as it is: no output iff the input is not refused as a whole and every
+request value in it is a notification (a sane Request without id). In particular never for
+unparsable input, an empty batch or disabled batches. -/
+theorem silent_iff_all_notifications (env : Env) (tbl : Table) (inp : Input) :
+    (handleInput junoCfg env tbl inp).body = none ↔
+      ∃ es, inp.entries junoCfg = some es ∧ ∀ e ∈ es, (stageOf env tbl e).isNotification = true := by
+  rw [silent_iff junoCfg env tbl inp]
+  have : ∀ s : Stage, s.noReply junoCfg = s.isNotification := by
+    intro s; cases s <;> simp [Stage.noReply, Stage.isNotification, junoCfg]
+  simp only [this]
+
+/-- For every configuration: the server is silent iff the input consists of request values it
+passes over in silence (`Stage.noReply`). -/
 theorem silent_iff_no_reply_expected (cfg : Config) (env : Env) (tbl : Table) (inp : Input) :
     (handleInput cfg env tbl inp).body = none ↔
       ∃ es, inp.entries cfg = some es ∧ ∀ e ∈ es, (stageOf env tbl e).noReply cfg = true :=
   silent_iff cfg env tbl inp
 
-/-- FULL (repaired `silentNotificationErrors`): no output iff every request value of the input is a
-notification (a sane Request without id). -/
-theorem silent_iff_all_notifications (cfg : Config) (env : Env) (tbl : Table) (inp : Input)
-    (hfix : cfg.silentNotificationErrors = true) :
-    (handleInput cfg env tbl inp).body = none ↔
-      ∃ es, inp.entries cfg = some es ∧ ∀ e ∈ es, (stageOf env tbl e).isNotification = true := by
-  rw [silent_iff cfg env tbl inp]
-  have : ∀ s : Stage, s.noReply cfg = s.isNotification := by
-    intro s; cases s <;> simp [Stage.noReply, Stage.isNotification, hfix]
-  simp only [this]
-
-/-- PARTIAL (unchanged server): no output iff every request value is a notification whose method
-exists and whose params bind. What is missing: notifications that fail at the method lookup or the
-argument binding are answered — see `notification_answered_with_error`. -/
-theorem silent_iff_all_notifications_partial (env : Env) (tbl : Table) (inp : Input) :
-    (handleInput junoCfg env tbl inp).body = none ↔
-      ∃ es, inp.entries junoCfg = some es ∧
-        ∀ e ∈ es, (stageOf env tbl e).isNotification = true ∧ ((stageOf env tbl e).call?).isSome = true := by
-  rw [silent_iff junoCfg env tbl inp]
-  have : ∀ s : Stage, s.noReply junoCfg = true ↔ (s.isNotification = true ∧ s.call?.isSome = true) := by
-    intro s; cases s <;> simp [Stage.noReply, Stage.isNotification, Stage.call?, junoCfg]
-  simp only [this]
-
-/- Full-strength statement for the unchanged server, FALSE (refuted just below), kept for the record:
-     theorem silent_iff_all_notifications_juno (env : Env) (tbl : Table) (inp : Input) :
-       (handleInput junoCfg env tbl inp).body = none ↔
-         ∃ es, inp.entries junoCfg = some es ∧ ∀ e ∈ es, (stageOf env tbl e).isNotification = true
-   It becomes `silent_iff_all_notifications` with proposed-fixes/C11-notification-error-reply.diff. -/
-
-/-- DEFECT (unchanged server): the notification `{"jsonrpc":"2.0","method":"nope"}` is answered with
-a -32601 error object. -/
-theorem notification_answered_with_error :
+/-- REGRESSION WITNESS (pinned commit, repaired by 16a67e4): the notification
+`{"jsonrpc":"2.0","method":"nope"}` was answered with a -32601 error object; the current server is
+silent. -/
+theorem notification_defect_before_16a67e4 :
     (stageOf nilEnv oneMethod (request "nope" [])).isNotification = true
     ∧ IsErrorResponse (-32601) .null
-        ((handleInput junoCfg nilEnv oneMethod (singleInput (request "nope" []))).body.getD .null) := by
-  refine ⟨by rfl, "Method Not Found", none, by rfl⟩
+        ((handleInput pinnedCfg nilEnv oneMethod (singleInput (request "nope" []))).body.getD .null)
+    ∧ (handleInput junoCfg nilEnv oneMethod (singleInput (request "nope" []))).body = none := by
+  refine ⟨by rfl, ⟨"Method Not Found", none, by rfl⟩, by rfl⟩
 
 /-! ## 3. One response per request, carrying its id, with the code of the first failing stage -/
 
@@ -117,9 +102,10 @@ on the wire (`assemble`: nothing / the object / the array), and the response obj
 one-to-one, in order, to the request values that are not passed over in silence; each carries the
 id of its request, the error code of the first failing stage, or the handler's outcome.
 Stated for EVERY permutation `rs'` of the response list (the worker pool may finish in any order):
-there is a matching permutation of the requests. Needs `ResultsOk` (repaired nil results, or no
-handler returning `(nil, nil)`) only for the "exactly one of result/error" part. -/
-theorem one_response_per_request (cfg : Config) (env : Env) (tbl : Table) (inp : Input)
+there is a matching permutation of the requests. `ResultsOk` (nil results written as null, or no
+handler returning `(nil, nil)`) is needed only for the "exactly one of result/error" part; it holds
+for `junoCfg`, see `one_response_per_request`. -/
+theorem one_response_per_request_any_config (cfg : Config) (env : Env) (tbl : Table) (inp : Input)
     (es : List Json) (hes : inp.entries cfg = some es) (hok : ResultsOk cfg env) :
     ∃ rs, (handleInput cfg env tbl inp).body = assemble (inp.batch? cfg).isSome rs ∧
       ∀ rs', rs.Perm rs' →
@@ -130,6 +116,18 @@ theorem one_response_per_request (cfg : Config) (env : Env) (tbl : Table) (inp :
   have hf := forall₂_imp (fun a b h => answersRequest_of_answers (decodeFailCode_cases cfg inp) hok h)
     (responses_forall₂ cfg env tbl inp es hes)
   exact forall₂_perm_right hf hp
+
+/-- FULL, for the server as it is: `one_response_per_request_any_config` without side condition. -/
+theorem one_response_per_request (env : Env) (tbl : Table) (inp : Input)
+    (es : List Json) (hes : inp.entries junoCfg = some es) :
+    ∃ rs, (handleInput junoCfg env tbl inp).body = assemble (inp.batch? junoCfg).isSome rs ∧
+      ∀ rs', rs.Perm rs' →
+        ∃ es', (es.filter (fun e => !(stageOf env tbl e).isNotification)).Perm es' ∧
+          Forall₂ (AnswersRequest junoCfg env tbl (inp.decodeFailCode junoCfg)) es' rs' := by
+  have h := one_response_per_request_any_config junoCfg env tbl inp es hes (Or.inl rfl)
+  have hn : ∀ s : Stage, s.noReply junoCfg = s.isNotification := by
+    intro s; cases s <;> simp [Stage.noReply, Stage.isNotification, junoCfg]
+  simpa only [hn] using h
 
 /-- `error_codes`: an input that is refused as a whole (no parsable JSON value; an empty batch;
 batches disabled) gets exactly one error object with id null and code -32700 resp. -32600, and no
@@ -228,17 +226,97 @@ theorem batch_after_128_blanks_not_recognised :
     ∧ (handleInput { junoCfg with peekLimit := none } nilEnv oneMethod inp).log = [("m", [])] := by
   refine ⟨⟨"Parse error", some opaqueData, by rfl⟩, by rfl, by rfl⟩
 
+/-- The optional-tail hypothesis of `positional_named_same_args` is necessary: with an optional
+parameter BEFORE a required one, the positional call `[7]` zero-fills the required parameter and
+runs the handler, while the named call `{"a":7}` is rejected. (No table juno serves has this shape:
+checked by the harness on `rpc.Handler.MethodsV0_8/9/10` at every run.) -/
+theorem positional_named_differ_without_optional_tail :
+    let m : Method := { name := "m", params := [{ name := "a", optional := true }, { name := "b" }] }
+    buildArguments echoEnv (some (.arr [.num "7"])) m = .ok [.num "7", .null]
+    ∧ (∃ e, buildArguments echoEnv (some (.obj [("a", .num "7")])) m = .error e) := by
+  exact ⟨by rfl, ⟨_, by rfl⟩⟩
+
+/-! ## 5b. Transports -/
+
+/-- HTTP: a POST is answered with status 200, `Content-Type: application/json` and exactly what
+`HandleReader` produces for the body (so every theorem above applies to it); the handlers invoked
+are those of `HandleReader`. -/
+theorem http_post_is_handleReader (cfg : Config) (env : Env) (tbl : Table) (path : Bool) (body : Input) :
+    serveHTTP cfg env tbl { method := .post, pathIsRoot := path, body := body } =
+      { status := 200, json := true, body := (handleInput cfg env tbl body).body,
+        log := (handleInput cfg env tbl body).log } := rfl
+
+/-- HTTP: no other method reaches the dispatcher: no body is written and no handler runs, whatever
+the request body is; the status is 200 (GET /), 404 (GET elsewhere) or 405. -/
+theorem http_non_post_runs_nothing (cfg : Config) (env : Env) (tbl : Table) (r : HttpRequest)
+    (h : r.method ≠ .post) :
+    (serveHTTP cfg env tbl r).body = none ∧ (serveHTTP cfg env tbl r).log = [] ∧
+    ((serveHTTP cfg env tbl r).status = 200 ∨ (serveHTTP cfg env tbl r).status = 404 ∨
+      (serveHTTP cfg env tbl r).status = 405) := by
+  cases hm : r.method with
+  | post => exact absurd hm h
+  | get => cases hp : r.pathIsRoot <;> simp [serveHTTP, hm, hp]
+  | other => simp [serveHTTP, hm]
+
+/-- WebSocket: on one connection the messages sent by the server are, in order, the responses to
+the messages that are not passed over in silence — one each, none lost, none duplicated, none
+overtaking — each response being what `HandleReader` produces for that message alone (a frame's
+bytes after its first JSON value never leak into the next message). The invocation log of the
+connection is the concatenation of the per-message logs. -/
+theorem ws_replies_in_message_order (cfg : Config) (env : Env) (tbl : Table) (msgs : List Input) :
+    Forall₂ (fun m r => (handleInput cfg env tbl m).body = some r)
+      (msgs.filter (fun m => (handleInput cfg env tbl m).body.isSome))
+      (wsWire (wsSession cfg env tbl msgs))
+    ∧ wsLog (wsSession cfg env tbl msgs) = msgs.flatMap (fun m => (handleInput cfg env tbl m).log) := by
+  refine ⟨ws_pairing cfg env tbl msgs, ?_⟩
+  simp [wsLog, wsSession, List.flatMap_map]
+
+/-! ## 5c. The parse-error pretty printer never indexes out of range (`pretty_error.go`) -/
+
+/-- After any sequence of reads (the chunks the JSON decoder pulls through the `TeeReader`), the
+window buffer holds at most 512 bytes, not more than were consumed, and they are exactly the last
+bytes of everything read so far (invariant proved by induction over the reads). -/
+theorem pretty_window_invariant (chunks : List (List UInt8)) :
+    (Pretty.Win.writes {} chunks).Inv ∧ (Pretty.Win.writes {} chunks).IsSuffixOf chunks.flatten := by
+  refine ⟨Pretty.inv_writes _ _ Pretty.inv_init, ?_⟩
+  have := Pretty.suffix_writes {} [] chunks (by simp [Pretty.Win.IsSuffixOf])
+  simpa using this
+
+/-- For every sequence of reads and every decode error (any offset, also 0 or negative): if a caret
+is drawn, its position lies inside the window, and line and column are at least 1 — so none of the
+slices `window[markerPos:]`, `window[:markerPos]`, `input[offset:]` in `lineAndColumn`,
+`offendingLine`, `describeSyntaxError`, `precedingLines` can panic. -/
+theorem pretty_error_indices_in_range (chunks : List (List UInt8)) (err : Pretty.DecodeErr)
+    (pos : Pretty.Pos) (h : Pretty.position (Pretty.Win.writes {} chunks) err = some pos) :
+    pos.markerPos ≤ (Pretty.Win.writes {} chunks).window.length ∧ 1 ≤ pos.line ∧ 1 ≤ pos.col :=
+  Pretty.position_in_range _ err pos (Pretty.inv_writes _ _ Pretty.inv_init) h
+
+/-- `truncateAround` for a line of any length and any column ≥ 1: the rune slice `[start:end]` is
+valid and the caret column stays ≥ 1 (`strings.Repeat(" ", markerCol-1)` gets no negative count). -/
+theorem pretty_truncate_in_range (len : Nat) (pivot : Int) (hp : 1 ≤ pivot) (s e mc : Int)
+    (h : Pretty.truncateAround len pivot = some (s, e, mc)) :
+    0 ≤ s ∧ s ≤ e ∧ e ≤ len ∧ 1 ≤ mc :=
+  Pretty.truncateAround_in_range len pivot hp s e mc h
+
 /-! ## 6. The validator of rpc/v10 (arithmetic) -/
 
 /-- `felt_max_bits=b` accepts exactly the values below 2^b -/
 theorem feltMaxBits_spec (n b : Nat) : feltMaxBits n b = true ↔ n < 2 ^ b := by
   simp [feltMaxBits, bitLen_le_iff]
 
+/-- `version_0x3` accepts exactly the two version felts 3 and 2^128 + 3 (the query bit) -/
+theorem version03_spec (n : Nat) : version03 n = true ↔ n = 3 ∨ n = 2 ^ 128 + 3 := by
+  simp [version03]
+
+/-- the validator on a resource-bounds-like struct: amount below 2^64, price below 2^128, version 3
+with or without the query bit -/
+theorem boundsValid_spec (ma mp ver : Nat) :
+    boundsValid ma mp ver = true ↔ ma < 2 ^ 64 ∧ mp < 2 ^ 128 ∧ (ver = 3 ∨ ver = 2 ^ 128 + 3) := by
+  simp [boundsValid, feltMaxBits, bitLen_le_iff, version03, and_assoc]
+
 /-! ## Non-vacuity: the hypotheses are satisfiable, the model does what the examples of the
 specification say -/
 
-def echoEnv : Env :=
-  { decode := fun _ v => some v, zero := fun _ => .null, call := fun _ args => { result := some (.arr args) } }
 def subTable : Table :=
   [{ name := "subtract", params := [{ name := "minuend" }, { name := "subtrahend" }] },
    { name := "opt", params := [{ name := "a" }, { name := "b", optional := true }] }]
